@@ -4,6 +4,7 @@
   the level tables and the mode setters are regenerated from the source.
 -/
 import Logg.Model.Adapter
+import Logg.Gen.Facts
 import Logg.Props.C02
 import Logg.Props.C12
 
@@ -121,6 +122,44 @@ theorem content_preserved (as : SAttrs) (h : anyScalar as = true) :
 /-- groups stay groups (printed without a `key=` of their own in the text formats), scalars scalars -/
 theorem group_marking (items : SAttrs) (b : Bool) : (convertVal (.group items)).1 = true ∧ (convertVal (.bool b)).1 = false := by
   simp [convertVal]
+
+/-! ### the conversion of the model is the switch of the code (regenerated) -/
+
+/-- the kind of a log/slog value, under the name the code switches on -/
+def kindOf : SVal → String
+  | .bool _ => "KindBool" | .time _ => "KindTime" | .dur _ => "KindDuration" | .float _ => "KindFloat64"
+  | .int _ => "KindInt64" | .str _ => "KindString" | .uint _ => "KindUint64" | .group _ => "KindGroup"
+  | .valuer _ => "KindLogValuer" | .any _ => "default"
+
+/-- what `convertVal` does with a value of that kind, spelled as the calls of the code: the constructor
+    of the same name applied to the value read by the accessor of the same name; a group converted
+    member by member; a LogValuer resolved and converted again; anything else handed on as it is -/
+def howOf : SVal → String
+  | .bool _ => "Bool>attr.Value.Bool" | .time _ => "Time>attr.Value.Time" | .dur _ => "Duration>attr.Value.Duration"
+  | .float _ => "Float64>attr.Value.Float64" | .int _ => "Int64>attr.Value.Int64" | .str _ => "String>attr.Value.String"
+  | .uint _ => "Uint64>attr.Value.Uint64" | .group _ => "Group>convertGroupToFields>attr.Value.Group"
+  | .valuer _ => "convertAttrToField>attr.Value.Resolve" | .any _ => "Any>attr.Value.Any"
+
+/-- (1b) For every log/slog value, the case the model's conversion takes is the case of the code's switch
+    over `attr.Value.Kind()`, and the switch has no further case: ten kinds, no depth or size
+    argument, no condition. -/
+theorem convert_follows_the_switch (v : SVal) :
+    (kindOf v, howOf v) ∈ Gen.convertKindTable ∧ Gen.convertKindTable.length = 10 := by
+  cases v <;> simp only [kindOf, howOf] <;> decide
+
+/-- (1c) The members of a group and the attributes of a record are converted one by one, all of
+    them, unconditionally: the loops have no condition, no early exit and no other call. -/
+theorem conversion_is_unconditional :
+    Gen.convertGroupToFieldsCalls = ["append", "convertAttrToField"] ∧ Gen.convertGroupToFieldsConditions = 0 ∧
+    Gen.convertLogSlogRecordAttrsCalls = ["make", "rec.NumAttrs", "rec.Attrs", "append", "convertAttrToField"] ∧
+    Gen.convertLogSlogRecordAttrsConditions = 0 := by decide
+
+/-- (1d) `Handle` hands the record's own time, its message and the converted attributes to the
+    logger (`WriteThru`, or `LogAttrs` for a logger that cannot take a time), whatever the context
+    says, and has one way out: `return nil` at its end. -/
+theorem handle_hands_over_the_record :
+    Gen.handleReturns = ["nil"] ∧ Gen.handleWriteThru = ["ctx,lvl,rec.Time,rec.PC,rec.Message,fields"] ∧
+    Gen.handleLogAttrs = ["ctx,lvl,rec.Message,fields"] := by decide
 
 /-! ### severity -/
 
